@@ -460,6 +460,10 @@ func ruleBulkFraming(w *core.World, r *core.Report) {
 					if _, isMk := sl.X.(*ssa.MakeSlice); isMk {
 						ok = true
 					}
+					// the same list grown by append: one element per completed iteration (r7_n2.go)
+					if grownOnePerIteration(sl.X) {
+						ok = true
+					}
 				}
 			}
 		next:
